@@ -6,7 +6,7 @@
    the published frames, in order, none skipped, whatever the interleaving.  The chain composition over the
    network model is explored in pipeline mode against the functional reference (C03_chain_partial). *)
 From Coq Require Import ZArith List Bool Lia.
-From OF Require Import Base.Str Base.Val Proto.Wire Proto.Receiver Proto.Receiver_Order Proto.Sender Proto.Sender_Safety Proto.MQGlue Proto.Edge.
+From OF Require Import Base.Str Base.Val Proto.Wire Proto.Receiver Proto.Receiver_Order Proto.Sender Proto.Sender_Safety Proto.MQGlue Proto.Edge Proto.EdgeNet.
 Import ListNotations.
 Open Scope Z_scope.
 
@@ -111,6 +111,17 @@ Theorem C03_edge_nothing_dropped :
     frames o2 = map frame_of gs.
 Proof. exact edge_drained_all. Qed.
 Print Assumptions C03_edge_nothing_dropped.
+
+(* publisher and consumer machines composed: whatever a (non-balanced) publisher machine publishes - under any
+   requests, calls and timeouts - is such a stream (one publish = one id and one topic list, ids strictly increasing:
+   C01_publisher_wf, C02_send_monotone), so the consumer is handed exactly the first k PUBLISHED frames *)
+Theorem C03_edge_end_to_end :
+  forall nout req sits sid cid ll rits,
+    let gs := groups_of sid (snd (srun (init_sender nout false req) sits)) in
+    Forall group_wf gs -> fed (stream gs) rits ->
+    exists k, frames (snd (rrun Repaired (init_receiver cid false ll [c0]) rits)) = map frame_of (firstn k gs).
+Proof. exact edge_end_to_end. Qed.
+Print Assumptions C03_edge_end_to_end.
 
 (* Non-vacuity of the edge theorems: three frames - two visible topics plus a hidden one; a frame with only a hidden
    topic (handed over as the empty set); one topic - arriving while the consumer is between and inside calls, one call
